@@ -732,6 +732,27 @@ J gen_world(uint64_t seed, const J &opts)
 			oper.push(o);
 		}
 	}
+	if ((focus == "C07" || focus == "C03" || focus == "C05") && oper.size() == 0 && g.chance(focus == "C07" ? 300 : 200)) {
+		// the operator stops (and restarts) the manager at a chosen point of the socket thread's work: in the middle of
+		// applying a response (k-th update callback), at its k-th receive call, or at a state change
+		J o = J::obj();
+		o["at_ms"] = 0;
+		o["op"] = "stop";
+		J on = J::obj();
+		unsigned k = (unsigned)g.below(100);
+		on["ev"] = k < 55 ? "pfx_cb" : k < 85 ? "recv" : "status";
+		on["sock"] = g.chance(700) ? 0 : -1;
+		on["n"] = (long long)(k < 55 ? g.range(1, 40) : k < 85 ? g.range(1, 120) : g.range(1, 12));
+		o["on"] = on;
+		oper.push(o);
+		J o2 = J::obj();
+		o2["at_ms"] = 0;
+		o2["op"] = "start";
+		J on2 = J::obj();
+		on2["ev"] = "none";
+		o2["delay_ms"] = (long long)g.pick(std::vector<long long>{0, 1, 1000, 70000});
+		oper.push(o2);
+	}
 	plan["oper"] = oper;
 	if (focus == "C04")
 		plan["hostile"] = 1;
